@@ -75,4 +75,10 @@ PROPERTIES = {
         explanation="order-dependence obligations (set iteration must not reach emitted text) on the functions that handle sets",
         assumptions=["isort/black determinism; equality across two processes beyond order-independence is outside one call's contract"],
     ),
+    "C08": dict(
+        modules=["contracts.c08_fragments", "contracts.c10_order"],
+        bounded=[_bounded.lazy("contracts.c08_fragments", "bounded_fragment_order"), _bounded.lazy("contracts.e2e_fragments", "bounded_scenarios")],
+        explanation="@mixin argument parsing and base/import bookkeeping under contract; fragment class ordering by exhaustive bounded stand-in",
+        assumptions=["that a class listed as base validates the same payload is pydantic's inheritance (assumed)"],
+    ),
 }
